@@ -217,3 +217,36 @@ Proof.
   split; [reflexivity|]. split; [reflexivity|].
   intros f Hf. rewrite (only_field f Hf). vm_compute. repeat split; reflexivity.
 Qed.
+
+(** * round 5: C04's per-node checks are silent on the translation of [the_field] and on the defaults
+    of [the_op], over an environment C04 can express *)
+From ApiFu Require Val.BridgeC04 Val.BridgeC04Proofs Vld.ValidatorModel.
+Example c04_nodes_instance :
+  BridgeC04.bridgeable EE = true /\ BridgeC04Proofs.no_float EE = true /\
+  fst (ValidatorModel.args_node ValidatorModel.repaired ValidatorModel.id_order []
+         (BridgeC04.tr_args 0 (af_args the_field)) (BridgeC04.tr_argdefs (af_argdefs the_field)) (0%N, 0%N)) = [] /\
+  forallb (fun a : Values.name * Values.lit =>
+             match Values.aget (fst a) (af_argdefs the_field) with
+             | Some d => BridgeC04.c04_accepts EE (snd a) (Values.in_type d) true
+             | None => false
+             end) (af_args the_field) = true /\
+  forallb (fun d => match Values.vd_default d with
+                    | Some l => CoerceModel.type_known EE (Values.vd_type d) && BridgeC04.c04_accepts EE l (Values.vd_type d) true
+                    | None => true
+                    end) the_defs = true.
+Proof. vm_compute. repeat split; reflexivity. Qed.
+
+(** validateVariables' visitor (C04's [usage_errs]) is silent inside both argument values of
+    [the_field] under C04's annotated variable definitions of [the_op] *)
+From ApiFu Require Cost.CostC04Usage Vld.ProofsTypeInfoValues.
+Example c04_usage_instance :
+  forallb (fun a : Values.name * Values.lit =>
+             match Values.aget (fst a) (af_argdefs the_field) with
+             | Some d =>
+                 CostC04Usage.nil_errs
+                   (ProofsTypeInfoValues.usage_errs true (BridgeC04.tr_env EE) (CostC04Usage.ann_vardefs the_defs) false
+                      (Some (BridgeC04.tr_sty (Values.in_type d))) (CoerceModel.arg_loc_default true d) (BridgeC04.tr_lit (snd a)))
+             | None => false
+             end) (af_args the_field) = true
+  /\ forallb (fun d => CoerceModel.type_known EE (Values.vd_type d)) the_defs = true.
+Proof. vm_compute. split; reflexivity. Qed.
